@@ -10,7 +10,6 @@ Binding:  real twisted.internet.defer.Deferred objects driven along generated pr
           and then performs its scripted behaviour.  One event per top-level operation carrying
           the invocation list and the escaping exception class.  TLC decides.
 """
-import itertools
 
 META = dict(
     id="C01",
@@ -404,13 +403,13 @@ def impl_layer(ctx):
     replayed on the real code (a design-level counterexample is reported only if the real code reproduces it)."""
     import re
     from harness.core import MachineryError, parse_tla_value
-    suffix = ctx.pick(".cfg", ".thorough.cfg")
-    for name in ("coded-known", "fixed-abs"):
-        r = ctx.mc("DeferredImplMC", "DeferredImplMC.%s%s" % (name, suffix), label=name)
-        if not r.ok:
-            raise MachineryError("DeferredImpl (%s) does not refine its interpreter: %s\n%s" % (name, r.error, (r.cex or [""])[-1][:1500]))
+    r = ctx.mc("DeferredImplMC", ctx.pick("DeferredImplMC.cfg", "DeferredImplMC.thorough.cfg"), label="coded vs interpreter+F1, repaired vs interpreter")
+    if not r.ok:
+        raise MachineryError("DeferredImpl does not refine its interpreter: %s\n%s" % (r.error, (r.cex or [""])[-1][:1500]))
     ctx.require_actions("DeferredImplMC", ["MAddCb", "MAddEb", "MAddBoth", "MFireOk", "MFireErr", "MPause", "MUnpause", "Outer", "Inner", "After"])
-    r = ctx.mc("DeferredImplMC", "DeferredImplMC.coded-abs.cfg", must_pass=False, label="coded-abs (expected: F1 counterexample)")
+    if ctx.quick:
+        return          # the expected-counterexample run needs 5-operation programs: thorough tier only
+    r = ctx.mc("DeferredImplMC", "DeferredImplMC.coded-abs.cfg", must_pass=False, coverage=False, label="coded vs interpreter (expected: F1 counterexample)")
     ctx.extra["impl_coded_refines_abs"] = bool(r.ok)
     if r.ok:
         return
@@ -446,6 +445,11 @@ def run(ctx):
         if not r.ok:
             raise MachineryError("DeferredAbs violates its own invariants: " + r.error)
     ctx.require_actions("DeferredAbsMC", ["AddCb", "AddEb", "AddBoth", "AddCbs", "FireOk", "FireErr", "DoPause", "DoUnpause"])
+    if not ctx.quick:
+        # vacuity witness: a paused waiter with a later callback queued behind its resume entry must be reachable
+        r = ctx.mc("DeferredAbsMC", "DeferredAbsMC.witness.cfg", must_pass=False, coverage=False, label="witness: must be violated")
+        if r.ok or r.kind != "invariant":
+            raise MachineryError("vacuity: the interesting wait state is not reachable in DeferredAbsMC (%s)" % (r.error or "passed"))
     impl_layer(ctx)
 
     traces = []
@@ -464,9 +468,31 @@ def run(ctx):
         nd = ctx.rng.randint(2, 6)
         p = random_program(ctx.rng, nd, ctx.rng.randint(6, 20))
         traces.append(run_program({"nd": nd}, p, epilogue(p, nd)))
+    # spec -> code: programs drawn by TLC from the interpreter, with its predictions, stepped through real Deferreds
+    if not ctx.quick:
+        behs = ctx.simulate("DeferredAbsSim", "DeferredAbsSim.cfg", num=12, depth=13)
+        drift = 0
+        for b in behs:
+            ops = []
+            for h in b["hist"]:
+                if h["e"] == "add":
+                    ops.append(("add", h["d"], h["m"], tuple(h["ok"]), tuple(h["err"])))
+                elif h["e"] == "fire":
+                    ops.append(("fire", h["d"], h["k"], h["v"]))
+                else:
+                    ops.append((h["e"], h["d"]))
+            nd = b["cfg"]["nd"]
+            t = run_program({"nd": nd}, ops, epilogue(ops, nd))
+            if [(e["inv"], e["exc"]) for e in t["ev"][:len(ops)]] != [(h["inv"], h["exc"]) for h in b["hist"]]:
+                drift += 1
+            traces.append(t)
+        ctx.extra["spec_behaviours_replayed"] = len(behs)
+        ctx.extra["spec_behaviours_not_reproduced"] = drift   # each of these is also rejected by TLC below
     ctx.note_traces(traces)
     ctx.log("recorded %d real executions (%d exhaustive)" % (len(traces), nex))
-    rej = ctx.validate("DeferredAbsTrace", traces, shard_size=ctx.pick(2500, 12000))
+    import os
+    nsh = ctx.pick(2, max(2, int(os.environ.get("VERIF_SHARDS") or 8)))
+    rej = ctx.validate("DeferredAbsTrace", traces, shard_size=(len(traces) + nsh - 1) // nsh)
     ctx.extra["rejected_executions"] = len(rej)
     report(ctx, traces, rej)
     bad = {x.idx for x in rej}
